@@ -988,7 +988,8 @@ pub mod verif_hooks {
             if MODEL_FLUSH_QUEUE.is_empty() {
                 Err(std::sync::mpsc::TryRecvError::Empty)
             } else {
-                let sig = MODEL_FLUSH_QUEUE.remove(0);
+                // (order among pending requests is irrelevant: they are all moved at once)
+                let sig = MODEL_FLUSH_QUEUE.pop().unwrap();
                 let out = std::mem::transmute_copy::<FlushSignal, T>(&sig);
                 std::mem::forget(sig);
                 Ok(out)
